@@ -18,8 +18,10 @@ Modes == {"fn", "fn-concrete", "mod", "trait-self", "di-static", "trait-ref-at",
 Rets == {"unit", "owned", "borrow-deps", "borrow-arg", "generic"}
 AsyncTrait(m) == m \in {"trait-ref-at", "di-dyn-at", "trait-self-at", "di-static-at"}
 \* atargs: the async_trait attribute is written with arguments, `#[async_trait(?Send)]` (only in the async_trait modes)
-Inputs == { i \in [mode : Modes, ret : Rets, nosend : BOOLEAN, atargs : BOOLEAN] :
+\* mockall: the `mockall` option is also given (its derivation is test-gated; the async rewrite must not depend on it)
+Inputs == { i \in [mode : Modes, ret : Rets, nosend : BOOLEAN, atargs : BOOLEAN, mockall : BOOLEAN] :
             /\ (i.atargs => AsyncTrait(i.mode))
+            /\ (i.mockall => i.mode \in {"fn", "mod", "trait-self"} /\ i.ret \in {"unit", "owned"})
             /\ (AsyncTrait(i.mode) => ~i.nosend /\ i.ret \in {"unit", "owned", "borrow-arg"})
             /\ (i.ret = "borrow-deps" => i.mode \in {"fn", "fn-concrete", "mod"})
             /\ (i.ret = "generic" => i.mode \in {"fn", "fn-concrete", "mod", "trait-self"}) }
